@@ -301,14 +301,13 @@ def string_cases(rng, tier, seed=0):
         for v in vals:
             docs = string_docs(tn, v, rng, 1 if quick else 4)
             cases.append({"tn": tn, "der": der_of_string(tn, v).hex(), "value": v, "kind": kind,
-                          "enc_unescaped": kind in ("bmp", "ucs4") and any(ch in "&<>" for ch in v),
                           "xdocs": [(l, d.encode("utf-8")) for l, d in docs]})
     directed = [{"u": "AT&T", "l": ["&", "<", "a&b&c"], "c": ("a", "&amp;"), "w": "€&"}, {"u": "", "l": [], "v": "", "o": b"", "bs": "", "w": ""}]
     for i in range(6 if quick else 40):
         v = rec_value(rng, directed[i] if i < len(directed) else None)
         docs = [("x:rec:%s:%s" % (m, lay), rec_doc(v, rng, m, lay)) for m, lay in
                 [("canon", "tight"), ("mix", "spaced"), ("allnum", "attr"), (rng.choice(MODES), rng.choice(["tight", "spaced", "attr"]))]]
-        cases.append({"tn": "Rec", "der": der_of_rec(v).hex(), "value": v, "kind": "rec", "enc_unescaped": any(ch in "&<>" for ch in v["w"]),
+        cases.append({"tn": "Rec", "der": der_of_rec(v).hex(), "value": v, "kind": "rec",
                       "xdocs": [(l, d.encode("utf-8")) for l, d in docs]})
     return cases
 
@@ -357,7 +356,7 @@ def ext_cases(mods, rng, tier):
                 older = [t for t in tns if m["x"][t]["nadd"] < x["nadd"]]
                 if not older:
                     continue
-                readers = sorted(set([older[-1], older[0], rng.choice(older)]), key=tns.index)
+                readers = sorted(set([older[-1], older[0]] + ([rng.choice(older)] if quick or rng.chance(1, 3) else [])), key=tns.index)
                 if m["name"] == "XB":
                     # open type size boundaries of the OER length determinant (127/128, 255/256, 65535/65536)
                     if tn != "ON3":
